@@ -393,7 +393,7 @@ fn send(src: usize, buf: &[u8], locators: &[Locator]) {
         for (dst, port) in dests {
             // coalescing of consecutive user DATA datagrams on one link
             if let Some(co) = net.plan.coalesce.clone() {
-                if class == wire::C_UDATA && port == Port::UserUni && parsed.ok {
+                if class & wire::C_UDATA != 0 && class & !(wire::C_UDATA | wire::C_UHB) == 0 && port == Port::UserUni && parsed.ok {
                     if let Some(h) = net.held.iter_mut().find(|h| h.src == src && h.dst == dst && h.port == port) {
                         h.bytes.extend_from_slice(&buf[20..]);
                         h.n += 1;
